@@ -821,6 +821,16 @@ func Access(obj any, write bool, label string) {
 	s.yield(&Op{kind: opAccess, acc: []access{{objID(obj), write}}, label: label})
 }
 
+// AtomicPt / AtomicOp make an operation on a sync/atomic variable that takes part in a compare-and-swap protocol
+// a scheduling point: vinstr rewrites x.Op(args) into AtomicOp(AtomicPt(&x, ...), x.Op(args)); Go evaluates the
+// operands left to right, so the point comes first and the operation runs when the thread is scheduled again.
+func AtomicPt(obj any, write bool, label string) struct{} {
+	Access(obj, write, label)
+	return struct{}{}
+}
+
+func AtomicOp[T any](_ struct{}, v T) T { return v }
+
 // ClockOp is a visible read or write of the mock clock.
 func ClockOp(write bool, label string) {
 	s := cur
